@@ -100,12 +100,27 @@ func execC17Interleave(t *testing.T, p Plan, src kernel.Source) Result {
 	var lockLog []hub.LockEvent
 	res := inBubble(t, p.Seed, src, func(w *kernel.World, res *Result) {
 		w.LogEvents = p.X["log"] != 0
+		h0, _ := inmem.New()
+		pre0 := inmemPrefix(p.Seed)
+		// sequential prelude (not part of the history): entries whose lifetime has run out
+		// but which are still in the map when the concurrent phase starts
+		for _, st := range p.Steps {
+			if st.Advance != 0 {
+				w.Advance(secs(st.Advance))
+				continue
+			}
+			if st.Op != nil {
+				if r := hcall(h0, prefixOp(*st.Op, pre0), false); r.Err != nil || r.Panic != "" {
+					res.Infra = fmt.Sprintf("prelude %s failed: %v", st.Op, r)
+					return
+				}
+			}
+		}
 		w.Run.ManagePkgs = []string{"/handlers/inmem"}
 		// a release is a scheduling point too: a command that drops and re-takes the lock
 		// can then be overtaken in between
 		w.Run.YieldAfterUnlock = true
-		h, _ := inmem.New()
-		pre := inmemPrefix(p.Seed)
+		h, pre := h0, pre0
 		type task struct {
 			name string
 			ops  []wire.Op
@@ -293,6 +308,15 @@ func genC17(seed uint64, tier string) Plan {
 			}
 			p.Progs = append(p.Progs, prog)
 		}
+		if g.p(1, 2) {
+			// the keys start as expired leftovers: stored with a short lifetime, then the
+			// clock moves well past it
+			for _, k := range keys {
+				op := wire.Op{Kind: "set", Key: k, Data: g.value(4), TTL: uint32(1 + g.n(2)), Opaque: 5}
+				p.Steps = append(p.Steps, Step{Op: &op})
+			}
+			p.Steps = append(p.Steps, Step{Advance: int64(5 + g.n(5))})
+		}
 		return p
 	}
 	p := Plan{Prop: "C17", Seed: seed}
@@ -317,7 +341,7 @@ func init() {
 	register(&Prop{
 		ID: "C17", Gen: genC17, Exec: execC17,
 		Nontrivial: func(p Plan, r Result) bool { return p.Mode != "" || nontrivialSeq(p, r) },
-		Rule:       "55% of the runs: sequential command sequences (all commands incl. multi-key gets and gat, 1-3 colliding keys, TTL 0 or 1-5 s, clock steps with the boundary second skipped) on the real inmem singleton (unique key prefix per run) compared with the reference map. 40%: 2-32 tasks with 1-3 commands each on 1-2 keys; the singleton's RWMutex is sim-owned, every Lock/RLock parks and the kernel grants them; oracle = porcupine linearizability per key plus lock discipline from the lock log (a mutating command must hold the write lock). 5%: auxiliary real-parallel stage outside the technique family (runtime monitoring): 2-32 real goroutines mix reads of missing keys with sets and deletes on the real mutex; the Go runtime's concurrent map access detector terminates the process if the map is written under the read lock, which the driver reports as a crash in repository code. Non-trivial = a key written earlier is addressed again / any concurrent mode; distinct = distinct plan hash",
+		Rule:       "55% of the runs: sequential command sequences (all commands incl. multi-key gets and gat, 1-3 colliding keys, TTL 0 or 1-5 s, clock steps with the boundary second skipped) on the real inmem singleton (unique key prefix per run) compared with the reference map. 40%: 2-32 tasks with 1-3 commands each (with lifetimes of 0 or 50-3000 s) on 1-2 keys, in half of these runs starting from keys that were stored with a 1-2 s lifetime and have expired but are still in the map; the singleton's RWMutex is sim-owned, every Lock/RLock parks and the kernel grants them; oracle = porcupine linearizability per key plus lock discipline from the lock log (a mutating command must hold the write lock). 5%: auxiliary real-parallel stage outside the technique family (runtime monitoring): 2-32 real goroutines mix reads of missing keys with sets and deletes on the real mutex; the Go runtime's concurrent map access detector terminates the process if the map is written under the read lock, which the driver reports as a crash in repository code. Non-trivial = a key written earlier is addressed again / any concurrent mode; distinct = distinct plan hash",
 		Real:       []string{"handlers/inmem (singleton map + RWMutex)"},
 		Stub:       []string{"clock (testing/synctest)", "sync.RWMutex of the singleton (sim-owned in interleave mode, real in the parallel stage)", "caller tasks"},
 		Assume:     []string{"the parallel stage relies on the Go runtime's built-in concurrent map access detection, which is probabilistic; it is auxiliary evidence"},
